@@ -158,6 +158,11 @@ def _worker(args: tuple) -> dict:
 
     faulthandler.dump_traceback_later(max(120.0, budget_s * 3), exit=True)
     check = get_check(pid)
+    if os.environ.get("VERIF_REACH", "1") != "0":
+        from . import reach
+        from .env import REPO
+
+        reach.start(os.path.join(REPO, "aioesphomeapi"))
     st: dict = {
         "evaluations": 0,
         "cases": 0,
@@ -223,6 +228,10 @@ def _worker(args: tuple) -> dict:
             st["harness"].append({"idx": idx, "k": -1, "errors": [traceback.format_exc()[-1500:]], "scenario": None})
     faulthandler.cancel_dump_traceback_later()
     st["hashes"] = list(st["hashes"])
+    if os.environ.get("VERIF_REACH", "1") != "0":
+        from . import reach
+
+        st["reach"] = reach.collect()
     return st
 
 
@@ -449,7 +458,9 @@ def run_check(pid: str, tier: str, seed: int, jobs: int | None = None, n_cases: 
                 harness_fail.append(f"worker died: {exc!r}")
 
     tot: dict = {"evaluations": 0, "cases": 0, "hashes": set(), "fired": collections.Counter(), "probes": collections.Counter(), "reasons": collections.Counter(), "sim_time": 0.0, "turns": 0, "samples": [], "violations": [], "harness": [], "nondeterminism": [], "cut_short": False, "extra": collections.Counter()}
+    reach_hits: set = set()
     for r in results:
+        reach_hits.update(tuple(x) for x in r.get("reach", ()))
         tot["evaluations"] += r["evaluations"]
         tot["cases"] += r["cases"]
         tot["hashes"].update(r["hashes"])
@@ -573,6 +584,19 @@ def run_check(pid: str, tier: str, seed: int, jobs: int | None = None, n_cases: 
         "known_findings_matched": len(known_lines),
         "oracle_notes": dict(sorted(tot["extra"].items())),
     }
+    if reach_hits:
+        from . import reach
+        from .env import REPO
+
+        per = reach.summarise(os.path.join(REPO, "aioesphomeapi"), reach_hits)
+        cov["library_line_reach"] = {
+            "measure": "lines of function bodies of the library executed at least once by this batch (sys.monitoring LINE events; observational only) / all such lines of the file",
+            "files": {f: f"{d['reached']}/{d['function_lines']}" for f, d in per.items()},
+        }
+        if write:
+            os.makedirs(os.path.join(VERIF, "reach"), exist_ok=True)
+            with open(os.path.join(VERIF, "reach", f"{pid}-{tier}.json"), "w", encoding="utf-8") as fh:
+                json.dump(per, fh, indent=1)
     cov.update(check.extra_evidence(tot))
     ev = {
         "property_id": pid,
